@@ -49,6 +49,14 @@ Theorem handle_tie_refuted :
 Proof. exact EquivStatic_proofs.handle_tie_refuted. Qed.
 Print Assumptions handle_tie_refuted.
 
+(* ... and the generated handle IS the model with the correction proposed in StaticGlue.handle_fixed /
+   try_indices_fixed (is_file() raising on an over-long resolved index path; `d / name` joined as pathlib does;
+   a NUL in an index name skipped): no hypothesis *)
+Theorem handle_tie_fixed_model : forall flt tok c f url,
+  norm_resp (gen_handle (model_lib flt tok) c f url) = resp_of_sout (handle_fixed c f url).
+Proof. exact EquivStatic_proofs.handle_tie_fixed_model. Qed.
+Print Assumptions handle_tie_fixed_model.
+
 (* FileUploadHandler._is_safe_path; exact, for every library *)
 Theorem upload_is_safe_path_tie : forall L c f p,
   gen_upload_is_safe_path L c f p = Ok (path_prefixb (u_root c) p).
@@ -71,13 +79,27 @@ Proof. exact EquivStatic_proofs.handle_delete_upload_tie. Qed.
 Print Assumptions handle_delete_tie.
 
 (* FileUploadHandler.handle_upload: the whole method (admission checks, delete, path resolution, temp file, rename,
-   cleanup).  The unconditional statement is FALSE in three ways (below; each confirmed on the real code, the model
-   is at fault); it holds when the temporary file's name is usable. *)
+   cleanup of what the upload itself created).  The unconditional statement is FALSE in three ways (below; each
+   confirmed on the real code, the model is at fault); it holds when the temporary file's name is usable. *)
 Theorem handle_upload_tie_partial : forall flt tok c f r,
   (forall t, resolve_target c f (q_path r) = Ok (Some t) -> q_size r <> 0%N -> tmp_ok f t tok) ->
   upload_out (gen_handle_upload (model_lib flt tok) c f r) = model_out (handle_upload c f r flt).
 Proof. exact EquivStatic_proofs.handle_upload_tie_partial. Qed.
 Print Assumptions handle_upload_tie_partial.
+
+(* ... and the generated handle_upload IS the model with the corrections proposed in StaticGlue.handle_upload_fixed
+   (the temporary name must be short enough and free, else 40 with only the parent directories created): no hypothesis *)
+Theorem handle_upload_tie_fixed_model : forall flt tok c f r,
+  upload_out (gen_handle_upload (model_lib flt tok) c f r) = model_out (handle_upload_fixed c f r flt tok).
+Proof. exact EquivStatic_proofs.handle_upload_tie_fixed_model. Qed.
+Print Assumptions handle_upload_tie_fixed_model.
+
+(* the corrected model is Model.Static.handle_upload wherever the temporary name is usable *)
+Theorem upload_fixed_agrees : forall flt tok c f r,
+  (forall t, resolve_target c f (q_path r) = Ok (Some t) -> q_size r <> 0%N -> tmp_ok f t tok) ->
+  handle_upload_fixed c f r flt tok = handle_upload c f r flt.
+Proof. exact EquivStatic_proofs.upload_fixed_agrees. Qed.
+Print Assumptions upload_fixed_agrees.
 
 Import EquivStatic_proofs.
 (* a target name of 234..255 bytes: the temporary name is over-long, the upload fails (40); the model says 20 *)
@@ -97,13 +119,15 @@ Theorem upload_tie_refuted_mkdir :
 Proof. exact EquivStatic_proofs.upload_tie_refuted_mkdir. Qed.
 Print Assumptions upload_tie_refuted_mkdir.
 
-(* a file with the temporary name exists: the upload fails AND the cleanup handler removes that file *)
-Theorem upload_tie_refuted_collision :
+(* a file with the temporary name exists: the upload fails (40) and that file is left alone (the defect found by the
+   previous version of this theorem - the cleanup handler unlinked it - is repaired by /repo commit 998dfce); the
+   model still reports success *)
+Theorem upload_tie_refuted_tmp_exists :
   upload_out (gen_handle_upload (model_lib None (lit "0123456789abcdef")) cx_ucfg cx4_fs (cx_req (lit "/a")))
-  = (UResp 40 [], [([lit "u"], Dir)]) /\
+  = (UResp 40 [], cx4_fs) /\
   fst (model_out (handle_upload cx_ucfg cx4_fs (cx_req (lit "/a")) None)) = UResp 20 [].
-Proof. exact EquivStatic_proofs.upload_tie_refuted_collision. Qed.
-Print Assumptions upload_tie_refuted_collision.
+Proof. exact EquivStatic_proofs.upload_tie_refuted_tmp_exists. Qed.
+Print Assumptions upload_tie_refuted_tmp_exists.
 
 (* the l_canon field of the instance is the canonical_path_segments translated in Gen/PyGen.v, over the model's unquote *)
 Theorem canon_lib_tie : forall flt tok p up, unquote p = Ok up ->
